@@ -27,6 +27,7 @@ def stepLine (d : DState) (line : String) : DState × String :=
   | "IM" :: rest => (d, Import.handle rest)
   | "EX" :: rest => (d, Export.handle rest)
   | "EXD" :: rest => (d, ExportDisplay.handle rest)
+  | "CT" :: rest => (d, ConstructDrv.handle rest)
   | _ => (d, "bad-op")
 
 partial def loop (hin : IO.FS.Stream) (hout : IO.FS.Stream) (d : DState) : IO Unit := do
